@@ -150,6 +150,29 @@ def sweep_foreign_labels(R, ctx):
                     ctx.nontrivial("foreign-label", repr(t1), repr(t2), sub[1], kind1)
 
 
+def sweep_mapping_labels(R, ctx):
+    """Mapping tables whose Python-side labels are falsy or unusual objects (False, 0, "", None, bytes, the empty tuple):
+    a label is whatever the table says, in both directions, exhaustively over the byte domain"""
+    Bt = ["name", "Byte"]
+    tables = [[[True, 1], [False, 0]], [[0, 5], [7, 6]], [["", 0], ["x", 1]], [[None, 0], ["n", 1]], [[tag(b""), 2], [tag(b"k"), 3]], [[{"t": []}, 4], [{"t": [1, 2]}, 5]],
+              [[0.0, 9], [1.5, 8]], [[False, 255], ["", 254], [None, 253]]]     # (not False and 0 together: they are the same dict key)
+    for i, t in enumerate(tables):
+        if not ctx.mine(i):
+            continue
+        for sub in (Bt, ["name", "Int16ul"], ["name", "VarInt"]):
+            r = ["Mapping", sub, t]
+            width = 1 if sub == Bt else 2
+            for b in range(256):
+                R.parse(r, bytes([b]) + bytes(width - 1) + b"\xee", {}, "mapping-labels")
+            for key, val in t:
+                k2 = untag(key) if isinstance(key, dict) else key
+                R.build(r, k2, {}, "mapping-labels")
+                R.build(["Struct", [["h", Bt], ["m", r]]], {"h": 1, "m": k2}, {}, "mapping-labels")
+            for other in (True, False, 0, 1, "", None, b"", (), "zz", 2.5):
+                R.build(r, other, {}, "mapping-labels")
+        ctx.nontrivial("mapping-labels", repr(t))
+
+
 HOSTILE = [None, 1.5, "x", b"x", True, [], {}, -1, 2 ** 200, float("inf")]
 
 
@@ -573,6 +596,7 @@ def run(ctx):
     sweep_streamed_bits(R, ctx)
     sweep_zero_width(R, ctx)
     sweep_foreign_labels(R, ctx)
+    sweep_mapping_labels(R, ctx)
     sweep_negative_lengths(R, ctx, rng)
     sweep_bits(R, ctx, rng)
     if ctx.mine(3):
